@@ -17,19 +17,29 @@ MODEL = "dirty"
 SHRINKABLE = True
 RULE = ("generated fonts (new, loaded from a generated UFO, just saved) x histories of catalogued public mutators of every "
         "object kind (effective change, or re-assignment of the held value), optional hold/release brackets on objects of "
-        "the chain; after each op: dirty flag of every object of the tree and the exact sequence of *.Changed deliveries to "
-        "a universal observer are compared with the model; oracle: after an effective change (and the release of all holds) "
-        "the object and all ancestors are dirty and each delivered *.Changed; a same-value re-assignment delivers nothing "
-        "and changes no flag; non-trivial = at least one effective change on an object at depth >= 2; distinct = distinct case")
+        "the chain, saves (succeeding, and failing while a layer is written) followed by further mutators; the model is told "
+        "the initial tree and per op only (receiver, kind, mutator, effective|same); after each op the dirty flag of every "
+        "object, the *.Changed deliveries to a universal observer, new and detached objects and the OBSERVED touched set (deepest "
+        "objects that announced, became dirty, or whose own data differ) are compared with the model's prediction; oracle: after "
+        "an effective change (and the release of all holds) the receiver - and whichever object's own data differ - and all "
+        "ancestors are dirty and each delivered *.Changed; a same-value re-assignment delivers nothing and changes no flag; "
+        "non-trivial = at least one effective change on an object at depth >= 2; distinct = distinct case")
 ASSUMPTIONS = [
     "no disableNotifications scope is active (propagation is cut by design there)",
     "container-valued 'assign = clear + refill' conveniences (glyph.lib = …, glyph.anchors = …, guidelines = …) are bulk "
     "mutators, not re-assignments: not held to the silence clause",
     "components reference base glyphs that are absent, so no cross-glyph notifications (C03 covers those)",
-    "dirty flags of objects below the glyph are read but never expected to be cleared (finding F31)",
+    "which flags a save clears is C06's subject: the model is told the flags after a save (as it is told the initial ones); "
+    "saves happen only while nothing is held",
+    "variants of data-dependent mutators (bottomMargin= without a vertical origin, deleting a glyph whose name stays in the "
+    "glyph order, fall-backs for contours no pen can draw) are decided from public reads before the call and named in the "
+    "mutator name",
 ]
 TRUSTED = ["the catalogue harness/props/c02.py:CATALOGUE performs the mutators it names; its completeness against the source "
-           "is the regenerated table lean/DefconModel/Gen/Mutators.lean + theorem catalogue_covers"]
+           "is the regenerated table lean/DefconModel/Gen/Mutators.lean + theorem catalogue_covers; its names are entries of the "
+           "Lean target table (table_covers_catalogue) whose targets / guards / relays agree with the AST (table_agrees_with_source)",
+           "the observation of the touched set on the implementation: *.Changed deliveries, dirty flags and data fingerprints of "
+           "contours, components, anchors, guidelines, images and libs"]
 
 COLORS = ["1,0,0,1", "0,1,0,0.5", "0,0,1,1"]
 
@@ -55,7 +65,7 @@ def _set(attr, values):
     return (attr + "=", eff, same)
 
 
-def _dict_cat(prefix, keyf, valf):
+def _dict_cat(prefix, keyf, valf, newf=None, default=None):
     def set_eff(o, k):
         key = keyf(k)
         v = valf(k)
@@ -64,21 +74,27 @@ def _dict_cat(prefix, keyf, valf):
         o[key] = v
 
     def set_same(o):
-        if not len(o):
+        # (an item that holds None is assigned unconditionally by design - see BaseDictObject.__setitem__ - and is not
+        # a candidate for the silence clause)
+        keys = [key for key in sorted(o.keys(), key=repr) if o[key] is not None]
+        if not keys:
             return False
-        key = sorted(o.keys(), key=repr)[0]
-        o[key] = copy.deepcopy(o[key])
+        o[keys[0]] = copy.deepcopy(o[keys[0]])
         return True
 
     def del_eff(o, k):
-        if not len(o):
-            o[keyf(k)] = valf(k)
-        key = sorted(o.keys(), key=repr)[0]
+        # (always one of the catalogue's own keys: what else the mapping holds - public.verticalOrigin in a glyph lib … - stays;
+        # a mapping without that key gets it instead: recorded as the item assignment it is)
+        key = keyf(k)
+        if key not in o:
+            o[key] = valf(k)
+            return prefix + "__setitem__"
         del o[key]
 
     def clear_eff(o, k):
         if not len(o):
             o[keyf(k)] = valf(k)
+            return prefix + "__setitem__"
         o.clear()
 
     def clear_same(o):
@@ -88,9 +104,56 @@ def _dict_cat(prefix, keyf, valf):
         return True
 
     def update_eff(o, k):
-        o.update({keyf(k): valf(k + 3)})
-    return [(prefix + "__setitem__", set_eff, set_same), (prefix + "__delitem__", del_eff, None),
-            (prefix + "clear", clear_eff, clear_same), (prefix + "update", update_eff, None)]
+        v = valf(k + 3)
+        if keyf(k) in o and o[keyf(k)] == v:
+            v = valf(k + 4)
+        o.update({keyf(k): v})
+    def new_key(o, k):
+        key = newf(k)
+        while key in o:
+            k += 1000
+            key = newf(k)
+        return key
+
+    # a NEW key that carries the value `get()` answers for a key that is missing (None; 0 for kerning): the mapping
+    # does change - it holds one key more - although a comparison with `get(key)` would say that nothing does
+    def new_default_update(o, k):
+        o.update({new_key(o, k): default})
+
+    def new_default_ior(o, k):
+        o |= {new_key(o, k): default}
+
+    def new_default_set(o, k):
+        o[new_key(o, k)] = default
+    res = [(prefix + "__setitem__", set_eff, set_same), (prefix + "__delitem__", del_eff, None),
+           (prefix + "clear", clear_eff, clear_same), (prefix + "update", update_eff, None)]
+    if newf is not None:
+        res += [(prefix + "update[new key, default value]", new_default_update, None),
+                (prefix + "|=[new key, default value]", new_default_ior, None),
+                (prefix + "__setitem__[new key, default value]", new_default_set, None)]
+    return res
+
+
+def _update_absent_key(keys, fallback):
+    """dict-like leaf objects (anchor, guideline): `update` with one of their own keys that is not stored yet, holding
+    None - what reading the attribute answers already; the object holds one key more afterwards"""
+    def eff(o, k):
+        for key in keys:
+            if key not in o:
+                o.update({key: None})
+                return None
+        return fallback(o, k)
+    return eff
+
+
+_CTX = {"tree": None}     # the tree of the running case (which object is the newest child of a container)
+
+
+def _newest(objs):
+    """the object of the list that joined the tree last (the model removes `the attached child with the greatest id`)"""
+    tree = _CTX["tree"]
+    ids = tree.ids if tree is not None else {}
+    return max(objs, key=lambda o: ids.get(id(o), 10 ** 9))
 
 
 def _glyph_append(kind):
@@ -122,13 +185,14 @@ def _children(g, kind):
 
 
 def _glyph_reappend(kind):
-    """take the last object out and put the same object back (the glyph must observe it again)"""
+    """take the newest object out and put the same object back (the glyph must observe it again); a glyph without such
+    an object gets one first"""
     def eff(g, k):
         lst = _children(g, kind)
         if not lst:
             _glyph_append(kind)(g, k)
             lst = _children(g, kind)
-        obj = lst[-1]
+        obj = _newest(lst)
         getattr(g, "remove" + kind.capitalize())(obj)
         getattr(g, "append" + kind.capitalize())(obj)
     return eff
@@ -143,8 +207,20 @@ def _font_append_guideline(f, k):
 def _font_reorder_guidelines(f, k):
     if len(f.guidelines) < 2:
         _font_append_guideline(f, k)
-        _font_append_guideline(f, k + 1)
+        return "appendGuideline"
     f.guidelines = list(reversed(f.guidelines))
+
+
+def _font_remove_guideline(f, k):
+    if not f.guidelines:
+        _font_append_guideline(f, k)
+    f.removeGuideline(_newest(f.guidelines))
+
+
+def _font_clear_guidelines(f, k):
+    if not f.guidelines:
+        _font_append_guideline(f, k)
+    f.clearGuidelines()
 
 
 def _color_same_spelled(o):
@@ -159,14 +235,13 @@ def _color_same_spelled(o):
 
 
 def _glyph_remove(kind):
+    """remove the newest object of that kind (a glyph without one gets one first, which then leaves again)"""
     def eff(g, k):
-        lst = {"contour": lambda: list(g), "component": lambda: list(g.components), "anchor": lambda: list(g.anchors),
-               "guideline": lambda: list(g.guidelines)}[kind]()
+        lst = _children(g, kind)
         if not lst:
             _glyph_append(kind)(g, k)
-            lst = {"contour": lambda: list(g), "component": lambda: list(g.components), "anchor": lambda: list(g.anchors),
-                   "guideline": lambda: list(g.guidelines)}[kind]()
-        getattr(g, "remove" + kind.capitalize())(lst[-1])
+            lst = _children(g, kind)
+        getattr(g, "remove" + kind.capitalize())(_newest(lst))
     return eff
 
 
@@ -174,35 +249,55 @@ def _glyph_clear(kind):
     plural = {"contour": "Contours", "component": "Components", "anchor": "Anchors", "guideline": "Guidelines"}[kind]
 
     def eff(g, k):
-        n = {"contour": len(g), "component": len(g.components), "anchor": len(g.anchors), "guideline": len(g.guidelines)}[kind]
-        if not n:
+        if not _children(g, kind):
             _glyph_append(kind)(g, k)
         getattr(g, "clear" + plural)()
     return eff
 
 
+_PEN_TROUBLE = ("PenError", "AssertionError", "NotImplementedError", "IndexError", "ZeroDivisionError")
+
+
 def _margin(attr):
+    """An effective margin change needs an outline with bounds.  What is decided from public reads BEFORE the call names
+    the mutator that is then run (the returned string): a glyph whose bounds cannot be computed gets another width, a
+    glyph without bounds gets a contour, `bottomMargin=` on a glyph without a vertical origin is a variant of its own
+    (it also writes the glyph lib)."""
     def eff(g, k):
-        if g.bounds is None:
+        try:
+            bounds = g.bounds
+            cur = getattr(g, attr) if bounds is not None else None
+        except Exception as e:
+            if type(e).__name__ not in _PEN_TROUBLE:
+                raise
+            _bump_width(g, k)
+            return "width="
+        if bounds is None:
             _glyph_append("contour")(g, k)
-        cur = getattr(g, attr)
+            return "appendContour"
+        if attr == "leftMargin" and any(not len(c) for c in g):
+            # (moving a contour without points changes nothing in it: not an effective change of that contour)
+            _bump_width(g, k)
+            return "width="
+        variant = None
+        if attr == "bottomMargin" and g.verticalOrigin is None:
+            variant = "bottomMargin=[no vertical origin]"
         setattr(g, attr, (cur or 0) + 7 + k)
+        return variant
 
     def same(g):
-        if g.bounds is None:
-            return False
-        if attr in ("bottomMargin", "topMargin"):
-            return False      # vertical margins write verticalOrigin into the lib (F26): not a plain re-assignment
-        setattr(g, attr, getattr(g, attr))
-        return True
-    def same_safe(g):
         try:
-            return same(g)
+            if g.bounds is None:
+                return False
+            if attr in ("bottomMargin", "topMargin"):
+                return False      # vertical margins write verticalOrigin into the lib (F26): not a plain re-assignment
+            setattr(g, attr, getattr(g, attr))
         except Exception as e:
             if type(e).__name__ == "PenError":
                 return False
             raise
-    return (attr + "=", _safe(eff, _bump_width), same_safe)
+        return True
+    return (attr + "=", eff, same)
 
 
 def _image_set(g, k):
@@ -220,33 +315,74 @@ def _image_same(g):
     return True
 
 
-def _safe(f, fallback=None):
-    """mutators that go through fontTools pens raise on contours that earlier point edits left undrawable
-    (a curve point without its off-curves …): fall back to a plain edit, which is an effective change too"""
-    def eff(c, k):
-        try:
-            f(c, k)
-        except Exception as e:
-            if type(e).__name__ not in ("PenError", "AssertionError", "NotImplementedError", "IndexError", "ZeroDivisionError"):
-                raise
-            if fallback is not None:
-                fallback(c, k)
-            else:
-                c.appendPoint(c._pointClass((k, 4), "line"))
-    return eff
+def _glyph_clear_image(g, k):
+    # (a call of its own, never preceded by another mutator that would dirty the glyph anyway; a glyph without an
+    # image gets one instead)
+    if g.image.fileName is None:
+        _image_set(g, k)
+        return "image="
+    g.clearImage()
+
+
+def _glyph_clear_all(g, k):
+    g.clear()
+
+
+def _glyph_move(g, k):
+    if not len(g) and not g.components and not g.anchors:
+        _glyph_append("contour")(g, k)
+        return "appendContour"
+    if any(not len(c) for c in g):
+        # (moving a contour without points changes nothing in it: not an effective change of that contour)
+        _bump_width(g, k)
+        return "width="
+    g.move((1 + k, 2))
 
 
 def _bump_width(g, k):
     g.width = (g.width or 0) + 13 + k
 
 
+def _append_point(c, k, y=4):
+    c.appendPoint(c._pointClass((k, y), "line"))
+    return "appendPoint"
+
+
+def _distinct(c):
+    """three or more points, no two at the same place: reversing or rotating the contour changes its point list"""
+    pts = [(p.x, p.y) for p in c]
+    return len(pts) >= 3 and len(set(pts)) == len(pts)
+
+
+def _contour_op(f, need_distinct=True):
+    """mutators that go through fontTools pens raise on contours that earlier point edits left undrawable (a curve
+    point without its off-curves …), and reversing a contour whose points coincide changes nothing: such a contour gets a
+    point instead - an effective change of the same object - and the op is recorded under that mutator's name"""
+    def eff(c, k):
+        _contour_pts(c, k)
+        if need_distinct and not _distinct(c):
+            return _append_point(c, k)
+        try:
+            return f(c, k)
+        except Exception as e:
+            if type(e).__name__ not in _PEN_TROUBLE:
+                raise
+            return _append_point(c, k)
+    return eff
+
+
 def _set_start(c, k):
     """an effective start-point change needs a closed contour with a second on-curve point; otherwise add a point"""
     on = [i for i, p in enumerate(c) if p.segmentType is not None and i != 0]
     if c.open or not on or len(c.onCurvePoints) < 2:
-        c.appendPoint(c._pointClass((k, 3), "line"))
-    else:
-        c.setStartPoint(on[0])
+        return _append_point(c, k, 3)
+    c.setStartPoint(on[0])
+
+
+def _contour_identifier(c, k):
+    if c.identifier is not None:
+        return _append_point(c, k, 1)
+    c.identifier = "cid%d" % id(c)
 
 
 def _contour_pts(c, k):
@@ -271,41 +407,94 @@ def _image_same_as_disk(s):
     return False
 
 
+def _layer_order(ls, k):
+    if len(ls.layerOrder) < 2:
+        ls.newLayer("lo%d" % k)
+        return "newLayer"
+    ls.layerOrder = list(reversed(ls.layerOrder))
+
+
+def _layerset_delete(ls, k):
+    """delete the layer that joined last (with everything in it) - unless that is the default layer: then add one"""
+    layer = _newest([ls[n] for n in ls.layerOrder])
+    if layer is ls.defaultLayer:
+        ls.newLayer("del%d" % k)
+        return "newLayer"
+    del ls[layer.name]
+
+
+def _set_delete(prefix, make):
+    """image / data set: delete one of the files the catalogue's own item assignment made (no glyph refers to them);
+    a set without such a file gets one instead"""
+    def eff(s, k):
+        names = sorted(n for n in s.fileNames if n.startswith(prefix) and not n.startswith("img"))
+        if not names:
+            s[make(k)[0]] = make(k)[1]
+            return "__setitem__"
+        del s[names[0]]
+    return eff
+
+
+def _layer_delete_glyph(l, k):
+    """delete the glyph that joined the layer last; whether the font's glyph order follows (the name is listed and no
+    other layer has a glyph of that name) is read before the call and names the variant"""
+    names = list(l.keys())
+    if not names:
+        l.newGlyph("dg%d" % k)
+        return "newGlyph"
+    g = _newest([l[n] for n in names])
+    name = g.name
+    font = l.font
+    elsewhere = any(name in other for other in font.layers if other is not l)
+    listed = name in font.glyphOrder
+    del l[name]
+    if elsewhere or not listed:
+        return "__delitem__[glyph order unchanged]"
+
+
+def _do(*fs):
+    """run the calls in order, return nothing (the entry is recorded under its own name)"""
+    def eff(o, k):
+        for f in fs:
+            f(o, k)
+    return eff
+
+
 # glyph attributes that live in the glyph's lib: the lib object is what changes (the glyph follows through its callback)
 VIA_LIB = {"markColor=", "verticalOrigin="}
-ALSO_LIB = {"topMargin=", "bottomMargin="}
+ALSO_LIB = {"topMargin=", "bottomMargin=", "bottomMargin=[no vertical origin]"}
 
 CATALOGUE = {
     "font": [
-        ("glyphOrder=", lambda f, k: setattr(f, "glyphOrder", ["zz%d" % k] + [n for n in f.glyphOrder if not n.startswith("zz")]),
+        ("glyphOrder=", _do(lambda f, k: setattr(f, "glyphOrder", ["zz%d" % k] + [n for n in f.glyphOrder if not n.startswith("zz")])),
          lambda f: (setattr(f, "glyphOrder", list(f.glyphOrder)) or True)),
         ("appendGuideline", _font_append_guideline, None),
         ("guidelines=reordered", _font_reorder_guidelines, None),
-        ("removeGuideline", lambda f, k: (f.guidelines or f.appendGuideline(dict(x=None, y=5, angle=None))) and f.removeGuideline(f.guidelines[-1]), None),
-        ("clearGuidelines", lambda f, k: (f.guidelines or f.appendGuideline(dict(x=None, y=5, angle=None))) and f.clearGuidelines(), None),
+        ("removeGuideline", _font_remove_guideline, None),
+        ("clearGuidelines", _font_clear_guidelines, None),
     ],
     "layerSet": [
-        ("layerOrder=", lambda ls, k: ls.newLayer("lo%d" % k) and setattr(ls, "layerOrder", list(reversed(ls.layerOrder))),
+        ("layerOrder=", _layer_order,
          lambda ls: (setattr(ls, "layerOrder", list(ls.layerOrder)) or True)),
-        ("newLayer", lambda ls, k: ls.newLayer("ln%d" % k), None),
-        ("__delitem__", lambda ls, k: ls.newLayer("del%d" % k) and ls.__delitem__("del%d" % k), None),
+        ("newLayer", _do(lambda ls, k: ls.newLayer("ln%d" % k)), None),
+        ("__delitem__", _layerset_delete, None),
         ("defaultLayer=", None, lambda ls: (setattr(ls, "defaultLayer", ls.defaultLayer) or True)),
     ],
     "layer": [
         _set("color", COLORS), ("color=spelled", None, _color_same_spelled),
-        ("newGlyph", lambda l, k: l.newGlyph("ng%d" % k), None),
-        ("__delitem__", lambda l, k: l.newGlyph("dg%d" % k) and l.__delitem__("dg%d" % k), None),
-        ("insertGlyph", lambda l, k: l.insertGlyph(_standalone_glyph(k), name="ig%d" % k), None),
+        ("newGlyph", _do(lambda l, k: l.newGlyph("ng%d" % k)), None),
+        ("__delitem__", _layer_delete_glyph, None),
+        ("insertGlyph", _do(lambda l, k: l.insertGlyph(_standalone_glyph(k), name="ig%d" % k)), None),
     ],
     "glyph": [
         _set("width", [0, 300, 512, 777]), _set("height", [0, 500, 1000]), _set("note", [None, "n1", "n2"]),
         _set("unicodes", [[], [65], [66, 67]]),
-        ("unicode=", lambda g, k: setattr(g, "unicode", 70 + k if g.unicode != 70 + k else 71 + k),
+        ("unicode=", _do(lambda g, k: setattr(g, "unicode", 70 + k if g.unicode != 70 + k else 71 + k)),
          lambda g: len(g.unicodes) <= 1 and (setattr(g, "unicode", g.unicode) or True)), _set("markColor", [None] + COLORS),
         _set("verticalOrigin", [None, 700, 800]),
         _margin("leftMargin"), _margin("rightMargin"), _margin("bottomMargin"), _margin("topMargin"),
         ("image=", _image_set, _image_same),
-        ("clearImage", lambda g, k: (_image_set(g, k), g.clearImage()), None),
+        ("clearImage", _glyph_clear_image, None),
         ("appendContour", _glyph_append("contour"), None), ("removeContour", _glyph_remove("contour"), None),
         ("clearContours", _glyph_clear("contour"), None),
         ("appendComponent", _glyph_append("component"), None), ("removeComponent", _glyph_remove("component"), None),
@@ -316,50 +505,82 @@ CATALOGUE = {
         ("clearGuidelines", _glyph_clear("guideline"), None),
         ("reappendContour", _glyph_reappend("contour"), None), ("reappendComponent", _glyph_reappend("component"), None),
         ("reappendAnchor", _glyph_reappend("anchor"), None), ("reappendGuideline", _glyph_reappend("guideline"), None),
-        ("move", _safe(lambda g, k: (len(g) or _glyph_append("contour")(g, k), g.move((1 + k, 2))), _bump_width), None),
-        ("clear", lambda g, k: (_glyph_append("anchor")(g, k), g.clear()), None),
-        ("name=", lambda g, k: setattr(g, "name", "rn%d" % k), lambda g: (setattr(g, "name", g.name) or True)),
+        ("move", _glyph_move, None),
+        ("clear", _glyph_clear_all, None),
+        ("name=", _do(lambda g, k: setattr(g, "name", "rn%d" % k)), lambda g: (setattr(g, "name", g.name) or True)),
     ],
     "contour": [
-        ("appendPoint", lambda c, k: c.appendPoint(c._pointClass((k, 5), "line")), None),
-        ("insertPoint", lambda c, k: c.insertPoint(0, c._pointClass((k, 9), "line")), None),
-        ("removePoint", lambda c, k: (_contour_pts(c, k), c.removePoint(c[-1])), None),
-        ("reverse", _safe(lambda c, k: (_contour_pts(c, k), c.reverse())), None),
-        ("move", _safe(lambda c, k: (_contour_pts(c, k), c.move((3 + k, 1)))), None),
-        ("setStartPoint", _safe(lambda c, k: _set_start(c, k)), None),
-        ("identifier=", lambda c, k: c.identifier is None and setattr(c, "identifier", "cid%d" % id(c)) or c.appendPoint(c._pointClass((k, 1), "line")),
+        ("appendPoint", _do(lambda c, k: c.appendPoint(c._pointClass((k, 5), "line"))), None),
+        ("insertPoint", _do(lambda c, k: c.insertPoint(0, c._pointClass((k, 9), "line"))), None),
+        ("removePoint", _do(_contour_pts, lambda c, k: c.removePoint(c[-1])), None),
+        ("reverse", _contour_op(lambda c, k: c.reverse()), None),
+        ("move", _contour_op(lambda c, k: c.move((3 + k, 1)), need_distinct=False), None),
+        ("setStartPoint", _contour_op(_set_start), None),
+        ("identifier=", _contour_identifier,
          lambda c: (c.identifier is not None) and (setattr(c, "identifier", c.identifier) or True)),
-        ("clockwise=", _safe(lambda c, k: (_contour_pts(c, k), setattr(c, "clockwise", not c.clockwise))),
+        ("clockwise=", _contour_op(lambda c, k: setattr(c, "clockwise", not c.clockwise)),
          lambda c: len(c) >= 3 and all(p.segmentType == "line" for p in c) and (setattr(c, "clockwise", c.clockwise) or True)),
-        ("clear", lambda c, k: (_contour_pts(c, k), c.clear()), None),
+        ("clear", lambda c, k: _append_point(c, k) if not len(c) else c.clear(), None),
     ],
     "component": [
         _set("baseGlyph", ["nobase0", "nobase1", "nobase2"]),
-        ("transformation=", lambda c, k: setattr(c, "transformation", (1, 0, 0, 1, 10 + k, 20)),
+        ("transformation=", _do(lambda c, k: setattr(c, "transformation", (1, 0, 0, 1, 10 + k, 20))),
          lambda c: (setattr(c, "transformation", tuple(c.transformation)) or True)),
-        ("move", lambda c, k: c.move((1 + k, 1)), None),
+        ("move", _do(lambda c, k: c.move((1 + k, 1))), None),
     ],
     "anchor": [_set("x", [1, 2, 3, 4]), _set("y", [5, 6, 7]), _set("name", [None, "top", "bottom"]), _set("color", [None] + COLORS),
-               ("color=spelled", None, _color_same_spelled), ("move", lambda a, k: a.move((1 + k, 1)), None)],
+               ("color=spelled", None, _color_same_spelled), ("move", _do(lambda a, k: a.move((1 + k, 1))), None),
+               ("update[new key, default value]", _update_absent_key(["name", "color", "identifier"], lambda a, k: (a.move((2 + k, 1)), "move")[1]), None)],
     "guideline": [_set("x", [11, 12, 13]), _set("name", [None, "ga", "gb"]), _set("color", [None] + COLORS),
-                  ("color=spelled", None, _color_same_spelled)],
+                  ("color=spelled", None, _color_same_spelled),
+                  ("update[new key, default value]", _update_absent_key(["y", "angle", "color", "identifier"],
+                                                                        lambda g, k: (setattr(g, "x", (g.x or 0) + 17 + k), "x=")[1]), None)],
     "image": [_set("fileName", ["img0.png", "img1.png", "img2.png"]), _set("color", [None] + COLORS),
-              ("transformation=", lambda i, k: setattr(i, "transformation", (1, 0, 0, 1, 30 + k, 0)),
+              ("transformation=", _do(lambda i, k: setattr(i, "transformation", (1, 0, 0, 1, 30 + k, 0))),
                lambda i: (setattr(i, "transformation", tuple(i.transformation)) or True)),
-              ("move", lambda i, k: i.move((1 + k, 2)), None)],
-    "lib": _dict_cat("", lambda k: "com.k%d" % (k % 4), lambda k: {"v": k}),
+              ("move", _do(lambda i, k: i.move((1 + k, 2))), None)],
+    "lib": _dict_cat("", lambda k: "com.k%d" % (k % 4), lambda k: {"v": k}, newf=lambda k: "com.new%d" % k),
     "info": [_set("familyName", ["A", "B", "C"]), _set("unitsPerEm", [1000, 2048, 512]), _set("ascender", [700, 750, 800]),
              _set("openTypeOS2WeightClass", [400, 500, 700]), _set("postscriptBlueValues", [[], [0, 10], [-10, 0, 500, 510]])],
-    "kerning": _dict_cat("", lambda k: ("A", "kr%d" % (k % 4)), lambda k: -10 - k),
-    "groups": _dict_cat("", lambda k: "grp%d" % (k % 4), lambda k: ["A", "g%d" % k]),
+    "kerning": _dict_cat("", lambda k: ("A", "kr%d" % (k % 4)), lambda k: -10 - k, newf=lambda k: ("A", "nk%d" % k), default=0),
+    "groups": _dict_cat("", lambda k: "grp%d" % (k % 4), lambda k: ["A", "g%d" % k], newf=lambda k: "ngrp%d" % k),
     "features": [_set("text", ["# a\n", "# b\n", "# c\n"])],
-    "images": [("__setitem__", lambda s, k: s.__setitem__("i%d.png" % (k % 3), fg.png_bytes(20 + k)),
+    "images": [("__setitem__", _do(lambda s, k: s.__setitem__("i%d.png" % (k % 3), fg.png_bytes(20 + k))),
                 lambda s: bool(s.fileNames) and (s.__setitem__(sorted(s.fileNames)[0], s[sorted(s.fileNames)[0]]) or True)),
-               ("__delitem__", lambda s, k: (s.__setitem__("d%d.png" % k, fg.png_bytes(40 + k)), s.__delitem__("d%d.png" % k)), None),
+               ("__delitem__", _set_delete("i", lambda k: ("i%d.png" % (k % 3), fg.png_bytes(60 + k))), None),
                ("__setitem__unread", None, _image_same_as_disk)],
-    "data": [("__setitem__", lambda s, k: s.__setitem__("f%d.txt" % (k % 3), fg.data_bytes(20 + k)), None),
-             ("__delitem__", lambda s, k: (s.__setitem__("d%d.txt" % k, fg.data_bytes(40 + k)), s.__delitem__("d%d.txt" % k)), None)],
+    "data": [("__setitem__", _do(lambda s, k: s.__setitem__("f%d.txt" % (k % 3), fg.data_bytes(20 + k))), None),
+             ("__delitem__", _set_delete("f", lambda k: ("f%d.txt" % (k % 3), fg.data_bytes(60 + k))), None)],
 }
+
+def _poison_anchor(g, k):
+    g.appendAnchor(dict(x=None, y=None, name="unwritable"))
+    return "appendAnchor"
+
+
+def _poison_lib(o, k):
+    o["com.unwritable"] = {1, 2}          # no property list can hold a set: writing the lib raises
+    return "__setitem__"
+
+
+def _unpoison_lib(o, k):
+    if "com.unwritable" in o:
+        del o["com.unwritable"]
+        return "__delitem__"
+    o["com.k0"] = {"v": 5000 + k}
+    return "__setitem__"
+
+
+# entries a history names explicitly (never drawn at random): content no writer accepts, so that a save fails while
+# the layers are written, and its removal.  Each is a catalogued mutator with particular data.
+SCRIPTED = {
+    "glyph": {"appendAnchor[no coordinates]": _poison_anchor},
+    "lib": {"__setitem__[unwritable value]": _poison_lib, "__delitem__[unwritable value]": _unpoison_lib},
+}
+
+
+# the names an entry can be recorded under besides its own (decided before the call, see _margin / _contour_op)
+VARIANTS = {"glyph": ["bottomMargin=[no vertical origin]"], "layer": ["__delitem__[glyph order unchanged]"]}
 
 
 def _standalone_glyph(k):
@@ -490,9 +711,292 @@ def _catalogue_names():
     return names
 
 
+KIND_CLASSES = {"font": ("font.py", "Font"), "layerSet": ("layerSet.py", "LayerSet"), "layer": ("layer.py", "Layer"),
+                "glyph": ("glyph.py", "Glyph"), "contour": ("contour.py", "Contour"), "component": ("component.py", "Component"),
+                "anchor": ("anchor.py", "Anchor"), "guideline": ("guideline.py", "Guideline"), "image": ("image.py", "Image"),
+                "lib": ("lib.py", "Lib"), "info": ("info.py", "Info"), "kerning": ("kerning.py", "Kerning"),
+                "groups": ("groups.py", "Groups"), "features": ("features.py", "Features"), "images": ("imageSet.py", "ImageSet"),
+                "data": ("dataSet.py", "DataSet")}
+BASE_CLASSES = ("BaseObject", "BaseDictObject", "BaseDictCompareObject")
+# `for x in <iterable>: x.<method>(…)` inside a method: which children the loop walks
+CHILD_ITERS = {"self": "contour", "_contours": "contour", "components": "component", "_components": "component",
+               "anchors": "anchor", "_anchors": "anchor"}
+
+
+def _is_self_attr(node, attr=None):
+    return (isinstance(node, ast.Attribute) and isinstance(node.value, ast.Name) and node.value.id == "self"
+            and (attr is None or node.attr == attr))
+
+
+def _class_namespace(repo, fn, cls, bases_ns):
+    """functions and property setters visible in class `cls` (its own, then those of the defcon base classes it names)"""
+    tree = ast.parse(open(os.path.join(repo, "Lib", "defcon", "objects", fn)).read())
+    cnode = [n for n in tree.body if isinstance(n, ast.ClassDef) and n.name == cls]
+    if not cnode:
+        raise ValueError("class %s not found in %s" % (cls, fn))
+    cnode = cnode[0]
+    funcs, setters = {}, {}
+    for b in cnode.bases:
+        bname = getattr(b, "id", None)
+        if bname in bases_ns:
+            funcs.update(bases_ns[bname][0])
+            setters.update(bases_ns[bname][1])
+    inherited = set(funcs)
+    for n in cnode.body:
+        if isinstance(n, ast.FunctionDef):
+            funcs[n.name] = n
+        if isinstance(n, ast.Assign) and isinstance(n.value, ast.Call) and getattr(n.value.func, "id", None) == "property":
+            args = n.value.args
+            if len(args) >= 2 and isinstance(args[1], ast.Name):
+                setters[n.targets[0].id] = args[1].id
+            elif len(args) >= 2 and isinstance(args[1], ast.Attribute):
+                setters[n.targets[0].id] = args[1].attr          # property(BaseObject._get_dirty, _set_dirty)
+    return funcs, setters, tree, inherited - {n.name for n in cnode.body if isinstance(n, ast.FunctionDef)}
+
+
+def _analyse(funcs, setters):
+    """per function: the roles it reaches directly, the functions of the class it runs, and the statements that matter
+    for the guard"""
+    direct, calls = {}, {}
+
+    def callees_of_target(t):
+        # self.p = v / self.p += v  -> the setter of property p ;  self[k] = v -> __setitem__ ; del self[k] -> __delitem__
+        res = set()
+        if _is_self_attr(t) and t.attr in setters and t.attr != "dirty":
+            res.add(setters[t.attr])
+        if isinstance(t, ast.Subscript) and isinstance(t.value, ast.Name) and t.value.id == "self":
+            res.add("__setitem__")
+        return res
+    for name, f in funcs.items():
+        d, cs = set(), set()
+        for n in ast.walk(f):
+            targets = []
+            if isinstance(n, ast.Assign):
+                targets = n.targets
+            elif isinstance(n, ast.AugAssign):
+                targets = [n.target]
+            for t in targets:
+                if _is_self_attr(t, "dirty"):
+                    if not (isinstance(n, ast.Assign) and isinstance(n.value, ast.Constant) and n.value.value is False):
+                        d.add("self")
+                elif isinstance(t, ast.Subscript) and _is_self_attr(t.value, "lib"):
+                    d.add("lib")
+                elif isinstance(t, ast.Attribute) and _is_self_attr(t.value, "_image") and not t.attr.startswith("_"):
+                    d.add("image")
+                elif isinstance(t, ast.Attribute) and _is_self_attr(t.value, "info") and t.attr == "dirty":
+                    d.add("info")
+                cs |= callees_of_target(t)
+            if isinstance(n, ast.Delete):
+                for t in n.targets:
+                    if isinstance(t, ast.Subscript) and _is_self_attr(t.value, "lib"):
+                        d.add("lib")
+                    if isinstance(t, ast.Subscript) and isinstance(t.value, ast.Name) and t.value.id == "self":
+                        cs.add("__delitem__")
+            if isinstance(n, ast.Call) and isinstance(n.func, ast.Attribute):
+                if isinstance(n.func.value, ast.Name) and n.func.value.id == "self":
+                    cs.add(n.func.attr)
+                if _is_self_attr(n.func.value, "lib") and n.func.attr in ("clear", "update", "pop", "popitem", "setdefault"):
+                    d.add("lib")
+                if _is_self_attr(n.func.value, "_image") and n.func.attr in ("clear", "update"):
+                    d.add("image")
+            if isinstance(n, ast.For) and isinstance(n.target, ast.Name):
+                it = n.iter
+                if isinstance(it, ast.Call) and getattr(it.func, "id", None) == "reversed" and it.args:
+                    it = it.args[0]
+                src = "self" if (isinstance(it, ast.Name) and it.id == "self") else (it.attr if _is_self_attr(it) else None)
+                if src in CHILD_ITERS:
+                    for m in ast.walk(n):
+                        if (isinstance(m, ast.Call) and isinstance(m.func, ast.Attribute) and isinstance(m.func.value, ast.Name)
+                                and m.func.value.id == n.target.id and m.func.attr in ("move", "reverse")):
+                            d.add(CHILD_ITERS[src])
+        direct[name] = d
+        calls[name] = {c for c in cs if c in funcs}
+    reach = {n: set(d) for n, d in direct.items()}
+    changed = True
+    while changed:
+        changed = False
+        for n in funcs:
+            for c in calls[n]:
+                if not reach[c] <= reach[n]:
+                    reach[n] |= reach[c]
+                    changed = True
+    return direct, calls, reach
+
+
+def _has_compare(test, ops):
+    return any(isinstance(c, ast.Compare) and any(isinstance(o, ops) for o in c.ops) for c in ast.walk(test))
+
+
+def _guards(funcs, setters, direct, calls, reach):
+    """a function is guarded when it contains the comparison that keeps a re-assignment silent: `if old == new: return`
+    (also `if not len(self): return` for clear), or `if old != new:` around what changes the object; or when all it
+    does is to run guarded functions of the class"""
+    def effect_in(nodes, name):
+        for st in nodes:
+            for n in ast.walk(st):
+                if isinstance(n, (ast.Assign, ast.AugAssign)):
+                    ts = n.targets if isinstance(n, ast.Assign) else [n.target]
+                    if any(_is_self_attr(t, "dirty") or (isinstance(t, ast.Subscript) and (
+                            (isinstance(t.value, ast.Name) and t.value.id == "self") or _is_self_attr(t.value, "lib"))) for t in ts):
+                        return True
+                    if any(_is_self_attr(t) and t.attr in setters and reach.get(setters[t.attr]) for t in ts):
+                        return True
+                if isinstance(n, ast.Call) and isinstance(n.func, ast.Attribute):
+                    if n.func.attr == "postNotification":
+                        return True
+                    if isinstance(n.func.value, ast.Name) and n.func.value.id == "self" and reach.get(n.func.attr):
+                        return True
+        return False
+    own = {}
+    for name, f in funcs.items():
+        g = False
+        for n in ast.walk(f):
+            if not isinstance(n, ast.If):
+                continue
+            early = len(n.body) >= 1 and isinstance(n.body[-1], ast.Return)
+            if early and (_has_compare(n.test, (ast.Eq,)) or (isinstance(n.test, ast.UnaryOp) and isinstance(n.test.op, ast.Not))):
+                g = True
+            if _has_compare(n.test, (ast.NotEq,)) and effect_in(n.body, name):
+                g = True
+        own[name] = g
+    res = dict(own)
+    changed = True
+    while changed:
+        changed = False
+        for n in funcs:
+            if not res[n] and not direct[n] and calls[n]:
+                eff = [c for c in calls[n] if reach[c]]
+                if eff and all(res[c] for c in eff):
+                    res[n] = True
+                    changed = True
+    return res
+
+
+def _const_str(node):
+    return node.value if isinstance(node, ast.Constant) and isinstance(node.value, str) else None
+
+
+def _posts_and_observers(funcs, calls):
+    """per function: the notification names it posts (itself or through methods of the class it runs); and for the
+    class: notification name -> callbacks registered with `<obj>.addObserver(self, "<callback>", "<name>")`"""
+    posts = {}
+    observers = {}
+    for name, f in funcs.items():
+        ps = set()
+        for n in ast.walk(f):
+            if not (isinstance(n, ast.Call) and isinstance(n.func, ast.Attribute)):
+                continue
+            if n.func.attr == "postNotification":
+                cand = [n.args[0]] if n.args else []
+                cand += [kw.value for kw in n.keywords if kw.arg == "notification"]
+                for c in cand:
+                    if _const_str(c):
+                        ps.add(_const_str(c))
+            if n.func.attr == "addObserver":
+                kw = {k.arg: k.value for k in n.keywords}
+                args = list(n.args)
+                observer = kw.get("observer", args[0] if len(args) > 0 else None)
+                method = kw.get("methodName", args[1] if len(args) > 1 else None)
+                note = kw.get("notification", args[2] if len(args) > 2 else None)
+                if isinstance(observer, ast.Name) and observer.id == "self" and _const_str(method) and _const_str(note):
+                    observers.setdefault(_const_str(note), set()).add(_const_str(method))
+        posts[name] = ps
+    changed = True
+    while changed:
+        changed = False
+        for n in funcs:
+            for c in calls[n]:
+                if not posts[c] <= posts[n]:
+                    posts[n] |= posts[c]
+                    changed = True
+    return posts, observers
+
+
+def _extract_facts(repo):
+    """(kind, method or `prop=`) -> (roles reached, guarded) for every public method / property setter of every class.
+    Roles: `self`, `lib`, `image`, `info`, `contour` / `component` / `anchor` (see _analyse), and for the one effect that
+    crosses the tree: `font.lib<self` when the method posts a notification for which the Font registers a callback that
+    writes `self.lib[…]`, `font.lib<parent` when it posts one that the class of its container (Layer for Glyph) observes with
+    a callback that posts such a notification in turn."""
+    bases_ns = {}
+    btree = ast.parse(open(os.path.join(repo, "Lib", "defcon", "objects", "base.py")).read())
+    for b in BASE_CLASSES:
+        cn = [n for n in btree.body if isinstance(n, ast.ClassDef) and n.name == b][0]
+        funcs, setters = {}, {}
+        for bb in cn.bases:
+            if getattr(bb, "id", None) in bases_ns:
+                funcs.update(bases_ns[bb.id][0])
+                setters.update(bases_ns[bb.id][1])
+        for n in cn.body:
+            if isinstance(n, ast.FunctionDef):
+                funcs[n.name] = n
+            if isinstance(n, ast.Assign) and isinstance(n.value, ast.Call) and getattr(n.value.func, "id", None) == "property":
+                args = n.value.args
+                if len(args) >= 2 and isinstance(args[1], ast.Name):
+                    setters[n.targets[0].id] = args[1].id
+        bases_ns[b] = (funcs, setters)
+    per = {}
+    for kind, (fn, cls) in KIND_CLASSES.items():
+        funcs, setters, tree, inherited = _class_namespace(repo, fn, cls, bases_ns)
+        if kind == "info":
+            # the attribute setters of Info are made by init_property: its nested `setter` is every attribute's setter
+            ip = [n for n in tree.body if isinstance(n, ast.FunctionDef) and n.name == "init_property"]
+            inner = [n for n in (ip[0].body if ip else []) if isinstance(n, ast.FunctionDef) and n.name == "setter"]
+            if inner:
+                funcs = dict(funcs)
+                setters = dict(setters)
+                for e in CATALOGUE["info"]:
+                    attr = e[0][:-1]
+                    funcs["_set_" + attr] = inner[0]
+                    setters[attr] = "_set_" + attr
+        direct, calls, reach = _analyse(funcs, setters)
+        guard = _guards(funcs, setters, direct, calls, reach)
+        posts, observers = _posts_and_observers(funcs, calls)
+        per[kind] = dict(funcs=funcs, setters=setters, inherited=inherited, reach=reach, guard=guard, posts=posts, observers=observers)
+    # notifications that make the font write its lib
+    font = per["font"]
+    to_font_lib = {n for n, cbs in font["observers"].items() if any("lib" in font["reach"].get(cb, ()) for cb in cbs)}
+    container = {"glyph": "layer", "layer": "layerSet", "contour": "glyph", "component": "glyph", "anchor": "glyph"}
+    facts = {}
+    for kind, c in per.items():
+        funcs, setters, inherited, reach, guard, posts = c["funcs"], c["setters"], c["inherited"], c["reach"], c["guard"], c["posts"]
+        par = per.get(container.get(kind))
+
+        def roles(fname):
+            r = set(reach[fname])
+            if posts[fname] & to_font_lib:
+                r.add("font.lib<self")
+            if par is not None:
+                for n in posts[fname]:
+                    for cb in par["observers"].get(n, ()):
+                        if par["posts"].get(cb, set()) & to_font_lib:
+                            r.add("font.lib<parent")
+            return sorted(r)
+        # (an inherited method that reaches nothing - addObserver, getRepresentation … - is left out; one the class
+        # defines itself is listed even when it reaches nothing: that is a decided fact)
+        for name in sorted(funcs):
+            if not name.startswith("_") or name in ("__setitem__", "__delitem__", "__ior__"):
+                if reach[name] or name not in inherited:
+                    facts[(kind, name)] = (roles(name), guard[name])
+        for prop, sname in sorted(setters.items()):
+            if sname in funcs and not prop.startswith("_") and (reach[sname] or sname not in inherited):
+                facts[(kind, prop + "=")] = (roles(sname), guard[sname])
+    return facts
+
+
+def _driven_names():
+    """every (kind, name) the harness can send to the model: catalogue entries and the variants decided before a call"""
+    res = {}
+    for kind, entries in CATALOGUE.items():
+        res[kind] = sorted({e[0] for e in entries} | set(VARIANTS.get(kind, [])))
+    return res
+
+
 def extract(repo, lean_dir):
     found = _extract_mutators(repo)
     cat = _catalogue_names()
+    facts = _extract_facts(repo)
+    driven = _driven_names()
 
     def lst(xs):
         return "[" + ", ".join('"%s"' % x for x in xs) + "]"
@@ -507,6 +1011,18 @@ def extract(repo, lean_dir):
     lines += ["]", "", "/-- (kind, mutators deliberately not driven here; reasons in harness/props/c02.py:EXEMPT) -/",
               "def exempt : List (String × List String) := ["]
     lines.append(",\n".join('  ("%s", %s)' % (k, lst(sorted(EXEMPT.get(k, {})))) for k in sorted(found)))
+    lines += ["]", "", "/-- (kind, every name the harness can hand to the model: catalogue entries and their variants) -/",
+              "def driven : List (String × List String) := ["]
+    lines.append(",\n".join('  ("%s", %s)' % (k, lst(driven[k])) for k in sorted(driven)))
+    lines += ["]", "",
+              "/-- what the AST says about a public method / property setter (`x=`) of the class of a kind: which objects its body,",
+              "or a method of the class it runs, sets dirty or writes (`self`, `lib`, `image`, `info`, `contour` / `component` / `anchor`",
+              "for a loop that calls a mutator on each; `font.lib<self` / `font.lib<parent` when it posts a notification that makes the",
+              "font write its lib, directly or passed on by its container), and whether it carries the comparison that keeps a",
+              "re-assignment silent -/",
+              "structure Facts where", "  kind : String", "  method : String", "  reaches : List String", "  guard : Bool", "",
+              "def facts : List Facts := ["]
+    lines.append(",\n".join('  ⟨"%s", "%s", %s, %s⟩' % (k, m, lst(r), "true" if g else "false") for (k, m), (r, g) in sorted(facts.items())))
     lines += ["]", "", "end DefconModel.Gen.Mutators", ""]
     text = "\n".join(lines)
     path = os.path.join(lean_dir, "DefconModel", "Gen", "Mutators.lean")
@@ -517,7 +1033,8 @@ def extract(repo, lean_dir):
             f.write(text)
         changed.append("Gen/Mutators.lean")
     n = sum(len(v) for v in found.values())
-    return changed, dict(obligations=1, classes=len(found), mutators_found=n)
+    return changed, dict(obligations=3, classes=len(found), mutators_found=n, method_facts=len(facts),
+                         names_driven=sum(len(v) for v in driven.values()))
 
 
 # ---------------------------------------------------------------------------------------
@@ -686,7 +1203,9 @@ def gen_case(rng, maxops):
         r = rng.random()
         kind = rng.choice(KINDS)
         pick = rng.randrange(1000)
-        if r < 0.55:
+        if r < 0.03:
+            ops.append(["save", "font", 0])         # (skipped while something is held)
+        elif r < 0.55:
             ops.append(["touch", kind, pick, rng.randrange(1000)])
         elif r < 0.72:
             ops.append(["same", kind, pick, rng.randrange(1000)])
@@ -722,13 +1241,39 @@ def gen_case(rng, maxops):
         ops.append(["release"] + h)
     if oheld:
         ops.append(["orelease", "font", 0])
+    # a save that FAILS while the layers are written (content no writer accepts), the content is taken out again, the
+    # font is edited further and saved: what a failed save leaves behind must not cut later changes off
+    if rng.random() < 0.3:
+        gp = rng.randrange(1000)
+        how = rng.choice(["anchor", "anchor", "layer lib", "some lib"])
+        if how == "anchor":
+            poison = [["touch", "glyph", gp, "appendAnchor[no coordinates]"]]
+            cure = [["touch", "glyph", gp, "removeAnchor"]]
+        else:
+            lp = 0 if how == "layer lib" else rng.randrange(1000)
+            poison = [["touch", "lib", lp, "__setitem__[unwritable value]"]]
+            cure = [["touch", "lib", lp, "__delitem__[unwritable value]"]]
+        after = [["touch", rng.choice(["glyph", "glyph", "contour", "anchor", "lib", "layer"]), gp if rng.random() < 0.6 else rng.randrange(1000),
+                  rng.randrange(1000)] for _ in range(rng.randint(1, 3))]
+        ops += poison + [["save", "font", 0]] + cure + [["touch", "glyph", gp, rng.randrange(1000)]]
+        if rng.random() < 0.6:
+            ops += [["save", "font", 0]]
+        ops += after
     return dict(spec=spec, origin=origin, ops=ops, watcher=watcher)
+
+
+_GENERATED = []     # the cases of the running check (generate() remembers them) …
+_LINES = {}         # … and their model lines, made in one parallel pass when the first of them is asked for
 
 
 def generate(rng, tier):
     n, maxops = (400, 12) if tier == "quick" else (5000, 30)
+    del _GENERATED[:]
+    _LINES.clear()
     for _ in range(n):
-        yield gen_case(rng, maxops)
+        c = gen_case(rng, maxops)
+        _GENERATED.append(c)
+        yield c
 
 
 # ---------------------------------------------------------------------------------------
@@ -791,11 +1336,36 @@ def _dirty_set(tree):
     return res
 
 
+FP_KINDS = ("contour", "component", "anchor", "guideline", "image", "lib")
+_CALIB = None      # a list, when harness/selftest/C02/calibrate.py collects what each mutator was seen to do
+
+
+def _deepest(tree, nodes):
+    """the members of `nodes` that have no descendant in `nodes`"""
+    nodes = set(nodes)
+    return sorted(j for j in nodes if not any(j in tree.path(c)[1:] for c in nodes))
+
+
+def _rel(tree, i, j):
+    """where node j sits, seen from the receiver i (calibration aid only)"""
+    kj = tree.nodes[j][1]
+    if j == i:
+        return "self"
+    if tree.nodes[j][2] == i:
+        return "child:" + kj
+    if j in tree.path(i):
+        return "ancestor:" + kj
+    if kj == "lib" and tree.nodes[j][2] == 0:
+        return "font.lib"
+    return "other:" + kj
+
+
 def run(case, want_lines):
     tmpd = tempfile.mkdtemp(prefix="vc02_")
     try:
         font = _build(case, tmpd)
         tree = Tree(font)
+        _CTX["tree"] = tree
         wscope = case.get("watcher")
         # (the global watcher registers first: the centre serves it before the Recorder)
         watcher = Watcher(tree, "global", font) if wscope == "global" else None
@@ -807,11 +1377,15 @@ def run(case, want_lines):
         keep = [tree, rec, watcher]
         outs, lines, viol = [], [], []
         stats = {"origin." + case["origin"]: 1}
-        # initial flags
+        # the initial tree (shape, kinds) and flags: the only thing the model is told about the font
         init_dirty = _dirty_set(tree)
-        lines.append([Atom("init"), [[i, (-1 if p is None else p)] for i, (o, k, p) in enumerate(tree.nodes)], init_dirty])
+        lines.append([Atom("init"), [[i, (-1 if p is None else p), Atom(k)] for i, (o, k, p) in enumerate(tree.nodes)], init_dirty])
         outs.append(Atom("ok"))
         holds = {}
+
+        def active_holds():
+            # (a hold on an object that a mutator has taken out of the font holds nothing back inside the font)
+            return any(n and tree.attached(j) for j, n in holds.items())
         touched_since = []     # (node, log index) of effective changes whose propagation is still owed
         deep = False
         for step, op in enumerate(case["ops"]):
@@ -820,13 +1394,34 @@ def run(case, want_lines):
             i = _pick(tree, kind, op[2])
             before_dirty = set(_dirty_set(tree))
             before_attached = {j for j in range(len(tree.nodes)) if tree.attached(j)}
-            before_fp = _fingerprints(tree) if op[0] == "touch" else {}
-            before_order = copy.deepcopy(font.lib.get("public.glyphOrder"))
+            before_fp = _fingerprints(tree)
             mark = len(rec.log)
             wlen = len(watcher.log) if watcher is not None else 0
             wbefore = watcher.snapshot() if watcher is not None else set()
             nnodes = len(tree.nodes)
-            line = [Atom("noop")]
+            line = [Atom("nop")]
+            if op[0] == "save":
+                # the font is written (in place; a font that has no place yet gets one).  What a save does to the flags is
+                # C06's subject: the model is told the flags afterwards, as it is told the initial ones.  What matters here
+                # is what follows: a save - failed ones included - must not cut later changes off.
+                if active_holds() or oheld_at is not None:
+                    outs.append([Atom("skip")])
+                    lines.append([Atom("skip")])
+                    continue
+                ok = True
+                try:
+                    font.save(font.path or os.path.join(tmpd, "m.ufo"))
+                except Exception as e:
+                    # (the catalogue's data are not all writable - a lib item that holds None, a guideline with x and y
+                    # but no angle … - and SCRIPTED adds content no writer accepts: a failing save is an outcome, not a finding)
+                    ok = False
+                    stats["save.failed.%s" % type(e).__name__] = stats.get("save.failed.%s" % type(e).__name__, 0) + 1
+                tree.refresh()
+                d = sorted(_dirty_set(tree))
+                stats["save." + ("ok" if ok else "failed")] = stats.get("save." + ("ok" if ok else "failed"), 0) + 1
+                lines.append([Atom("save"), Atom("ok" if ok else "failed"), d])
+                outs.append([[Atom("saved"), Atom("ok" if ok else "failed")], [Atom("dirty"), [Atom("set")] + d]])
+                continue
             if i is None:
                 outs.append([Atom("skip")])
                 lines.append([Atom("skip")])
@@ -838,16 +1433,20 @@ def run(case, want_lines):
                     cands = [e for e in entries if e[1] is not None]
                 else:
                     cands = [e for e in entries if e[2] is not None]
+                if isinstance(op[3], str):
+                    # an entry the history names (SCRIPTED, or a catalogue entry by its name)
+                    cands = [(op[3], SCRIPTED[kind][op[3]], None)] if op[3] in SCRIPTED.get(kind, {}) else [e for e in cands if e[0] == op[3]]
                 if not cands:
                     outs.append([Atom("skip")])
                     lines.append([Atom("skip")])
                     continue
-                name, eff, same = cands[op[3] % len(cands)]
-                stats["%s.%s.%s" % (op[0], kind, name)] = stats.get("%s.%s.%s" % (op[0], kind, name), 0) + 1
+                name, eff, same = cands[(op[3] if isinstance(op[3], int) else 0) % len(cands)]
                 applied = True
                 try:
                     if op[0] == "touch":
-                        eff(obj, step)
+                        variant = eff(obj, step)
+                        if isinstance(variant, str):
+                            name = variant      # decided from public reads before the call (see _margin, _contour_op)
                     else:
                         applied = bool(same(obj))
                 except Exception as e:
@@ -860,16 +1459,15 @@ def run(case, want_lines):
                     outs.append([Atom("skip")])
                     lines.append([Atom("skip")])
                     continue
-                if op[0] == "touch":
-                    line = [Atom("touch"), i]       # completed below, once the side effects are known
-                    if len(tree.path(i)) >= 3:
-                        deep = True
-                else:
-                    line = [Atom("same"), i]
+                stats["%s.%s.%s" % (op[0], kind, name)] = stats.get("%s.%s.%s" % (op[0], kind, name), 0) + 1
+                # ALL the model is told: receiver, its kind, the mutator's name, effective or same-value
+                line = [Atom("mut"), i, Atom(kind), name, Atom("effective" if op[0] == "touch" else "same")]
+                if op[0] == "touch" and len(tree.path(i)) >= 3:
+                    deep = True
             elif op[0] in ("ohold", "orelease"):
                 # (observer-scoped and object-scoped brackets are not nested into each other: what a release re-posts into
                 # another hold is the notification centre's business, C04)
-                if watcher is None or (op[0] == "ohold") == (oheld_at is not None) or (op[0] == "ohold" and any(holds.values())):
+                if watcher is None or (op[0] == "ohold") == (oheld_at is not None) or (op[0] == "ohold" and active_holds()):
                     outs.append([Atom("skip")])
                     lines.append([Atom("skip")])
                     continue
@@ -886,7 +1484,7 @@ def run(case, want_lines):
                     viol.append(dict(clause="C02/hold-release-raised", signature="C02/hold-release-raised/%s" % op[0], step=step,
                                      error="%s: %s" % (type(e).__name__, str(e)[:200])))
                     continue
-                line = [Atom("same"), 0]
+                line = [Atom("nop")]
             elif op[0] == "hold" and oheld_at is not None:
                 outs.append([Atom("skip")])
                 lines.append([Atom("skip")])
@@ -911,54 +1509,33 @@ def run(case, want_lines):
                 holds[i] -= 1
                 line = [Atom("release"), i]
             tree.refresh()
-            # objects created by this op join both sides' trees
-            new_nodes = [[j, -1 if tree.nodes[j][2] is None else tree.nodes[j][2]] for j in range(nnodes, len(tree.nodes))]
-            if new_nodes:
-                line = [Atom("grow"), new_nodes, [j for j, _ in new_nodes if tree.nodes[j][0].dirty], line]
             lines.append(line)
+            # ---- what the implementation did, observed: compared with the model's prediction, never handed to it ----
+            new_nodes = [[j, -1 if tree.nodes[j][2] is None else tree.nodes[j][2], Atom(tree.nodes[j][1])]
+                         for j in range(nnodes, len(tree.nodes))]
+            after_attached = {j for j in range(len(tree.nodes)) if tree.attached(j)}
+            gone = sorted(j for j in before_attached if j not in after_attached)
             changed = [tree.ids[oid] for (nm, oid) in rec.log[mark:] if nm.endswith(".Changed") and oid in tree.ids
                        and tree.ids[oid] < nnodes]
             after_dirty = set(_dirty_set(tree))
-            if op[0] == "touch":
-                # which objects did the mutator change?  The named one, plus objects it changes on the side (the font lib
-                # through the glyph order; the glyph lib through markColor / verticalOrigin / vertical margins): the deepest
-                # objects that became dirty or announced a change.  The model then predicts the whole propagation.
-                cand = (set(changed) | {j for j in (after_dirty - before_dirty) if j < nnodes})
-                after_fp = _fingerprints(tree)
-                cand |= {j for j, v in before_fp.items() if tree.attached(j) and after_fp.get(j) != v}
-                libchild = tree.ids.get(id(getattr(obj, "lib", None))) if kind == "glyph" else None
-                if kind == "glyph" and name in VIA_LIB and libchild is not None:
-                    cand.add(libchild)          # stored in the glyph lib: the lib is the object that changes
-                elif kind == "glyph" and name in ALSO_LIB and libchild is not None:
-                    cand.add(i)                 # (the lib joins through its fingerprint when the vertical origin changes)
-                elif not (kind == "font" and name == "glyphOrder="):
-                    cand.add(i)
-                roots = [j for j in cand if not any(j in tree.path(c)[1:] for c in cand)]
-                if i in cand and i not in roots:
-                    # the named object changes itself, whatever it also changes below it (a held child must not hide it)
-                    roots.append(i)
-                tl = [[Atom("touch"), j] for j in sorted(roots)]
-                gone = sorted(j for j in before_attached if not tree.attached(j))
-                inner = [Atom("seq")] + tl + [[Atom("drop"), j] for j in gone]
-                if lines[-1][0] == "grow":
-                    lines[-1][3] = inner
-                else:
-                    lines[-1] = inner
-            if op[0] == "release":
-                # a released notification may run a callback that changes another object (the glyph-order callback of the
-                # font runs when a held Layer.GlyphAdded is released and writes the font lib)
-                cand = (set(changed) | {j for j in (after_dirty - before_dirty) if j < nnodes}) - set(tree.path(i))
-                roots = [j for j in cand if not any(j in tree.path(c)[1:] for c in cand)]
-                if roots:
-                    base = lines[-1][3] if lines[-1][0] == "grow" else lines[-1]
-                    inner = [Atom("seq"), base] + [[Atom("touch"), j] for j in sorted(roots)]
-                    if lines[-1][0] == "grow":
-                        lines[-1][3] = inner
-                    else:
-                        lines[-1] = inner
-            multi = op[0] == "touch"
-            outs.append([[Atom("dirty"), [Atom("set")] + sorted(j for j in after_dirty if j < nnodes or True)],
-                         [Atom("changed"), [Atom("set")] + sorted(set(changed))]])
+            after_fp = _fingerprints(tree)
+            # the touched set as far as it can be seen from outside: the deepest objects (that were there before and still
+            # are) which announced a change, became dirty, or whose own data differ
+            evid = {j for j in changed if j in after_attached}
+            evid |= {j for j in (after_dirty - before_dirty) if j < nnodes}
+            evid |= {j for j, v in before_fp.items() if j in after_attached and after_fp.get(j) != v}
+            touched = _deepest(tree, evid)
+            outs.append([[Atom("dirty"), [Atom("set")] + sorted(after_dirty)],
+                         [Atom("changed"), [Atom("set")] + sorted(set(changed))],
+                         [Atom("touched"), [Atom("set")] + touched],
+                         [Atom("new"), new_nodes],
+                         [Atom("gone"), [Atom("set")] + gone]])
+            if _CALIB is not None and op[0] in ("touch", "same", "release"):
+                _CALIB.append(dict(op=op[0], kind=kind, name=name if op[0] != "release" else "release",
+                                   touched=sorted(_rel(tree, i, j) for j in touched),
+                                   new=[(k, _rel(tree, i, p), bool(tree.nodes[j][0].dirty)) for j, p, k in new_nodes],
+                                   gone=sorted(_rel(tree, i, j) for j in gone),
+                                   held=sorted(_rel(tree, i, j) for j, n in holds.items() if n and j in tree.path(i))))
             # ---- oracle -----------------------------------------------------------------
             if viol:
                 continue
@@ -1009,7 +1586,19 @@ def run(case, want_lines):
                     viol.append(dict(clause="C02/changed-object-not-dirty", signature="C02/changed-object-not-dirty/%s.%s" % (kind, name),
                                      step=step))
                 touched_since.append((i, mark, kind, name))
-            if not any(holds.values()):
+            if op[0] != "same":
+                # the first sentence of the property for WHICHEVER object's own data differ after the step - the receiver,
+                # an object the mutator edits on the side (glyph lib, image), one a callback wrote (the font lib through the
+                # glyph order, also when a held notification is released): it is dirty now, and owes the whole chain
+                opname = name if op[0] == "touch" else op[0]
+                for j in sorted(j for j, v in before_fp.items() if j in after_attached and after_fp.get(j) != v):
+                    if j not in after_dirty:
+                        viol.append(dict(clause="C02/data-changed-not-dirty", signature="C02/data-changed-not-dirty/%s.%s/%s" % (
+                            kind, opname, tree.nodes[j][1]), step=step, node=j))
+                        break
+                    if (j, mark, kind, opname) not in touched_since:
+                        touched_since.append((j, mark, kind, opname))
+            if not active_holds():
                 # nothing held anywhere: every owed propagation must be complete now
                 for (t, m, tk, tn) in touched_since:
                     if not tree.attached(t):
@@ -1032,6 +1621,7 @@ def run(case, want_lines):
             pass
         return dict(out=outs, viol=viol, info=dict(nontrivial=deep, stats=stats), lines=lines)
     finally:
+        _CTX["tree"] = None
         shutil.rmtree(tmpd, ignore_errors=True)
 
 
@@ -1041,9 +1631,32 @@ def run_impl(case):
     return r
 
 
-def model_lines(case):
+def _lines_worker(case):
     import sys
     import warnings
+    import logging
+    import sexp
     warnings.filterwarnings("ignore")
+    logging.disable(logging.CRITICAL)
     sys.unraisablehook = lambda *a: None
-    return run(case, True)["lines"]
+    return [sexp.dumps(x) for x in run(case, True)["lines"]]
+
+
+def model_lines(case):
+    """the lines for the model: the initial tree, then per op only (receiver, kind, mutator, effective|same) / hold / release
+    (the tree shape and the receiver ids are only known on the real font, so the case is run once more for them; the cases
+    of a check are run in parallel the first time one is asked for)"""
+    import json
+    import multiprocessing
+    key = json.dumps(case, sort_keys=True, default=str)
+    if key not in _LINES and len(_GENERATED) >= 32 and not _LINES:
+        nproc = max(1, min(16, os.cpu_count() or 1))
+        ctx = multiprocessing.get_context("fork")
+        with ctx.Pool(nproc) as pool:
+            res = pool.map(_lines_worker, _GENERATED, chunksize=max(1, len(_GENERATED) // (nproc * 8)))
+        for c, r in zip(_GENERATED, res):
+            _LINES[json.dumps(c, sort_keys=True, default=str)] = r
+    if key not in _LINES:
+        return [Atom(x) for x in _lines_worker(case)]
+    # (already encoded: an Atom is written out verbatim)
+    return [Atom(x) for x in _LINES[key]]
